@@ -28,6 +28,7 @@ import (
 	"github.com/attestantio/dirk/services/locker"
 	syncmaplocker "github.com/attestantio/dirk/services/locker/syncmap"
 	"github.com/attestantio/dirk/services/process"
+	mockprocess "github.com/attestantio/dirk/services/process/mock"
 	"github.com/attestantio/dirk/services/ruler"
 	goruler "github.com/attestantio/dirk/services/ruler/golang"
 	"github.com/attestantio/dirk/services/signer"
@@ -356,11 +357,18 @@ func (s *Stack) start() error {
 		return fmt.Errorf("lister handler: %w", err)
 	}
 
-	if opts.Process != nil {
-		s.SetProcess(opts.Process)
+	proc := opts.Process
+	if proc == nil {
+		// Stacks that do not exercise key generation get the repository's mock process service: the
+		// account and wallet managers and their handlers insist on one but lock/unlock never call it.
+		mp, err := mockprocess.New()
+		if err != nil {
+			return err
+		}
+		proc = mp
 	}
 
-	return nil
+	return s.SetProcess(proc)
 }
 
 // SetProcess installs the process service and builds the services that need it.
